@@ -2,7 +2,7 @@
 integrity::delete_artifact executed from tensor_blob's MIR over the key/value contract of the store.  Decided: a chunk's stored
 reference count equals the number of references to it (artifacts' chunk lists plus chunks a writer has already stored), after one
 operation from every bounded state, and after two operations where one runs entirely inside a reference-count read-modify-write
-window of the other.  The collector (async), streaming reads, checksums, repair and real hashing are NOT decided."""
+window of the other.  gc_cycle is executed as the poll function of its (non-suspending) async body.  full_gc, streaming reads, checksums, repair and real hashing are NOT decided."""
 import sys
 import os
 import itertools
@@ -23,7 +23,7 @@ ck.assumptions = [
     'the store is its key/value contract (get hands out a copy; put, delete, exists on a finite map); TensorData is its field map',
     'Chunk::key: "_blob:chunk:" + content hash with the hash an abstract identifier: equal content <=> equal key (collision-free hash); chunk bytes are opaque',
     'a lock is honoured when the code takes one: ref_count_lock(key) (if present) is a per-key mutex released by the MIR\'s own drop',
-    'NOT decided: GarbageCollector::{gc_cycle, full_gc} (async), that zero-count chunks are what the collector deletes is read off gc_cycle by eye; streaming, checksums, verify/repair, interleavings other than "B inside one window of A"',
+    'NOT decided: full_gc, a collector pass racing a writer, streaming, checksums, verify/repair, interleavings other than "B inside one window of A"',
 ]
 U64 = lambda v: z3.BitVecVal(v, 64)
 CH_TPL = '_blob:chunk:'
@@ -331,6 +331,53 @@ for arts in ART_SETS:
 if n_store == 0 or n_del == 0:
     ck.inconclusive.append(f'vacuous: store_chunk succeeded on {n_store} paths, delete_artifact on {n_del}')
 
+# ---- R4: the collector. `gc_cycle` is an `async fn` without suspension points: its body is a state machine that completes on the
+# first poll; the poll function is executed from state 0 with the collector as its captured `self`.
+ck.declare('R4_collector_removes_only_unreferenced_chunks', 'GarbageCollector::gc_cycle (one poll of its async body) on every bounded state, chunk ages and the minimum age symbolic, batch size >= number of chunks',
+           'returns Ready; every chunk it deletes had a stored count of 0; with counts equal to the number of references (R) no chunk that an artifact references is deleted, and R still holds')
+
+
+def m_scan_chunks(c):
+    pre = deref(c.st, c.args[1])
+    if pre.text != CH_TPL:
+        raise Unsupported('scan of ' + repr(pre.text))
+    return Seq('std::string::String', [k for k in kv_of(c.st).keys if is_chunk_key(k)])
+
+
+ex.extra_models['TensorStore::scan'] = m_scan_chunks
+ex.extra_models['gc::current_timestamp'] = lambda c: Int(z3.BitVec('gc_now', 64), False)
+polled = 0
+for arts in ART_SETS:
+    for orphan in (False, True):
+        st = ex.new_state()
+        Wd = World(st, arts)
+        if orphan and any(0 in l for l in arts):
+            continue
+        gc = Struct('GarbageCollector', {F('GarbageCollector', 'store'): st.roots['store']}, lazy='GC')
+        cfg = gc.load(F('GarbageCollector', 'config'), 'GcConfig', st)
+        cfg.fields[F('GcConfig', 'batch_size')] = Int(U64(16), False)
+        body = Struct('{async fn body of GarbageCollector::gc_cycle()}', {0: ref(gc), '__state': 0})
+        pin = Struct('Pin', {0: ref(body)})
+        c0, a0 = read_state(st)
+        res = run(st, 'GarbageCollector::gc_cycle::{closure#0}', [pin, ref(Opaque('Context'))])
+        ck.note_path_problem(res, f'gc_cycle arts={arts}')
+        for r in res:
+            wit = lambda m, arts=arts: {'blob_op': 'gc', 'artifacts': arts}
+            if r.status == 'panic':
+                ck.require(ex, 'R4_collector_removes_only_unreferenced_chunks', r.pc, None, z3.BoolVal(False), wit, lambda m, w_: 'gc-panic')
+                continue
+            if r.status != 'return':
+                continue
+            polled += 1
+            c1, a1 = read_state(r.st)
+            ready = getattr(r.retval, 'variant', 'Ready') in ('Ready', None) or 'Poll' in str(getattr(r.retval, 'ty', ''))
+            gone = [(cid, rf) for (cid, rf) in c0 if not any(z3.is_true(z3.simplify(cid == x)) for (x, _) in c1)]
+            cs = [z3.BoolVal(bool(ready)), refs_match(c1, a1, []), z3.BoolVal(len(a1) == len(a0))] + [rf == 0 for (_, rf) in gone]
+            ck.require(ex, 'R4_collector_removes_only_unreferenced_chunks', r.pc, None, z3.And(cs), wit, lambda m, w_: 'collector-removed-referenced-chunk')
+del ex.extra_models['TensorStore::scan']
+if polled == 0:
+    ck.inconclusive.append('R4 vacuous: gc_cycle never completed')
+
 # ---- R3: B inside A's k-th window
 hits = 0
 for arts in ([[0]], [[0], [0]], [[0, 0]], [[0], [0, 1]]):
@@ -392,6 +439,6 @@ for v in ck.violations:
     rep = Replay.call({'op': 'blob_step', **v['witness']})
     v['native'] = rep
     v['replayed'] = rep.get('violates')
-ck.functions += ['BlobWriter::store_chunk', 'gc::increment_chunk_refs', 'gc::decrement_chunk_refs', 'integrity::delete_artifact', 'streaming::get_int', 'streaming::get_pointers']
+ck.functions += ['GarbageCollector::gc_cycle::{closure#0}', 'BlobWriter::store_chunk', 'gc::increment_chunk_refs', 'gc::decrement_chunk_refs', 'integrity::delete_artifact', 'streaming::get_int', 'streaming::get_pointers']
 if __name__ == '__main__':
     ck.finish()
